@@ -201,7 +201,7 @@ def run_case(case, tier="quick"):
                 c = Fraction(int(co.p), int(co.q))
                 truth += c * (refsem.expectation(dists[n], mono, it) if mono else 1)
             val = fn.xreplace({ni: sympy.Integer(n), sympy.Symbol("n"): sympy.Integer(n)})
-            val = sympy.nsimplify(sympy.simplify(val)) if not val.is_Rational else val
+            val = sympy.simplify(val) if not val.is_Rational else val
             if val.free_symbols or not val.is_Rational:
                 try:
                     ok = pd.values_equal(pd.robust_numeric(val), truth)
